@@ -133,3 +133,12 @@ Proof.
   - apply (etd4rk_fixed_point F I h lam E Eh N Next ustar Heq HE).
 Qed.
 Print Assumptions C09_equilibria_are_fixed_points.
+
+(* non-vacuity of the divergence-free premise: every stream function phi gives a divergence-free field (d_1 phi, - d_0 phi, 0) *)
+Section NonVacuity.
+  Variable F : FieldT.
+  Add Field FfC09 : (fth F).
+  Example C09_divergence_free_states_exist : forall (ii s : F) (phi : field F) (m : idx),
+    dc F ii s 0 m * (dc F ii s 1 m * phi m) + dc F ii s 1 m * (- dc F ii s 0 m * phi m) + dc F ii s 2 m * 0 = 0.
+  Proof. intros ii s phi m. ring. Qed.
+End NonVacuity.
